@@ -2,7 +2,9 @@ SPEC = {
     "id": "C05",
     "level": "other",
     "sidecars": ['normalize_url'],
-    "functions": ['ural/normalize_url.py:should_strip_fragment', 'ural/normalize_url.py:qsl_sort_key', 'ural/normalize_url.py:should_strip_query_item'],
+    "functions": ['ural/normalize_url.py:should_strip_fragment', 'ural/normalize_url.py:qsl_sort_key', 'ural/normalize_url.py:should_strip_query_item',
+                  'ural/normalize_url.py:normalize_url'],
+    "function_sidecars": {'ural/normalize_url.py:normalize_url': ["normalize_url_main"]},
     "bounded": ["bcheck.c05"],
     "explanation": (
         "Deductive extras (all inputs, pyvc): the decision helpers of normalize_url - should_strip_fragment (routing test), qsl_sort_key (total, injective), should_strip_query_item (filter consultation order; no exception escapes, incl. the callable combination entries). "
@@ -11,10 +13,16 @@ SPEC = {
         "is compared component-wise with the parsed (redirection-resolved, cleaned) input: host = input labels minus whole irrelevant labels / leading "
         "amp-, non-default port kept, path in {resolved input minus AMP marker / index page / trailing slash}, query items a sub-list of the input's "
         "(sub-multiset when sorting) with keys and values untouched, scheme / userinfo / fragment per option; two runs differing in one option agree on "
-        "every other component; unparseable input is returned unchanged and nothing raises. The planned deductive part (exception freedom and option "
-        "guards of normalize_url's body over an abstract component record) is not built: the body uses generator expressions over lambdas, sorted(key=), "
-        "next() and twenty regex calls that are outside pyvc's accepted subset; it is therefore not claimed."),
-    "assumptions": ["'cannot be parsed' = urlsplit or .port raises, or there is no host (the quantifier lists the empty string)",
+        "every other component; unparseable input is returned unchanged and nothing raises. The body of normalize_url is under a record-level contract "
+        "(contracts/normalize_url_main.py; helpers = uninterpreted total functions): for ALL inputs and option settings the returned record is proved to be "
+        "the stated function of the parsed (redirection-resolved, cleaned, 'http://'-prefixed when scheme-less, platform-rewritten when asked) input, component by "
+        "component (named obligations scheme / host / port / user / password / path / fragment / query): every option that is off leaves its part exactly as "
+        "parsed (scheme kept iff not strip_protocol and the input had one; userinfo iff not strip_authentication; trailing slash; index page; fragment; "
+        "subdomain labels; AMP markers; item order iff not sort_query); the emitted items are the unquoted items that should_strip_query_item does not "
+        "reject, under the first per-domain filter whose domain ends the host; a ValueError of urlsplit / .port / the platform parsers, or a missing host, "
+        "returns the ORIGINAL argument; nothing else raises."),
+    "assumptions": ["record-level contract: helpers (resolve, urlsplit, normpath, splitext, regex substitutions, safely_unquote_*, safely_quote*, sorted, should_strip_query_item, unsplit_netloc, urlunsplit, platform parsers) are deterministic total functions of their arguments except for the ValueError listed",
+                    "'cannot be parsed' = urlsplit or .port raises, or there is no host (the quantifier lists the empty string)",
                     "a path may lose a trailing slash AND an index page AND an AMP marker (each at most once)"],
     "trusted_base": ["bcheck/urlref.py reference denotation", "urllib.parse.urlsplit"],
 }
